@@ -1,1 +1,79 @@
 //! verif-hooks: date area (read-only accessors; see mod.rs)
+//!
+//! `Date`'s fields are private to `crate::date`, so a date is built from raw
+//! `(year, month, day)` through the existing `Date::deserialize` (which
+//! accepts any year != 0, month 1..=12, day 1..=31, including impossible
+//! ones such as 30 February) and read back through `Date::serialize`.
+
+use crate::date::Date;
+
+/// Raw `(year, month, day)` of a date.
+pub type Ymd = (i32, u8, u8);
+
+fn mk(ymd: Ymd) -> Option<Date> {
+	let mut buf = Vec::with_capacity(6);
+	buf.extend_from_slice(&ymd.0.to_be_bytes());
+	buf.push(ymd.1);
+	buf.push(ymd.2);
+	Date::deserialize(&mut buf.as_slice()).ok()
+}
+
+fn raw(d: Date) -> Ymd {
+	let mut buf: Vec<u8> = Vec::with_capacity(6);
+	d.serialize(&mut buf).expect("writing to a Vec cannot fail");
+	(
+		i32::from_be_bytes([buf[0], buf[1], buf[2], buf[3]]),
+		buf[4],
+		buf[5],
+	)
+}
+
+/// `Date::next` on a raw date (`None`: not constructible; `Some(Err(message))`: the error).
+#[must_use]
+pub fn next(ymd: Ymd) -> Option<Result<Ymd, String>> {
+	Some(mk(ymd)?.next().map(raw).map_err(|e| e.to_string()))
+}
+
+/// `Date::prev` on a raw date.
+#[must_use]
+pub fn prev(ymd: Ymd) -> Option<Result<Ymd, String>> {
+	Some(mk(ymd)?.prev().map(raw).map_err(|e| e.to_string()))
+}
+
+/// `Display` of a raw date (runs `Date::day_of_week`).
+#[must_use]
+pub fn show(ymd: Ymd) -> Option<String> {
+	Some(mk(ymd)?.to_string())
+}
+
+/// Outcome of `Date::diff_months` on raw dates.
+pub enum DiffMonths {
+	/// the resulting date
+	Date(Ymd),
+	/// `FendError::NonExistentDate`: `(year, expected_day, before, after)`
+	NonExistent(i32, u8, Ymd, Ymd),
+	/// any other error (message)
+	Other(String),
+}
+
+/// `Date::diff_months` on a raw date.
+#[must_use]
+pub fn diff_months(ymd: Ymd, months: i64) -> Option<DiffMonths> {
+	Some(match mk(ymd)?.diff_months(months) {
+		Ok(d) => DiffMonths::Date(raw(d)),
+		Err(crate::error::FendError::NonExistentDate {
+			year,
+			month: _,
+			expected_day,
+			before,
+			after,
+		}) => DiffMonths::NonExistent(year, expected_day, raw(before), raw(after)),
+		Err(e) => DiffMonths::Other(e.to_string()),
+	})
+}
+
+/// `Date::parse` (trim + `parse_yyyymmdd`): the raw date, or `None` on error.
+#[must_use]
+pub fn parse(s: &str) -> Option<Ymd> {
+	Date::parse(s).ok().map(raw)
+}
